@@ -154,6 +154,11 @@ def matrix_protos():
         for rep in (False, True):
             j += 1
             mk(alpha_tag('Mf', j), [fix('Code', 5, repeat=rep), fix('Second', 3, pad=('right', '0')), fix('Zed', 4, zchar=True)], options=cfg)
+    # lengths 1, 10, 20 and 256 for every pad character and side (round numbers, one character, longer than a u8 can count)
+    for n, pad in ((10, ('right', '0')), (20, ('left', '0')), (10, ('right', 'nul')), (1, ('left', 'sp')), (256, ('right', 'sp')), (30, None)):
+        j += 1
+        mk(alpha_tag('Mf', j), [num('Pre', 'u8'), fix('Code', n, pad=pad), fix('Codes', n, pad=pad, repeat=True), num('Post', 'u16')],
+           options={'FixedStringPadChar': "'0'"} if pad is None else None)
     # objects
     j = 0
     for rep in (False, True):
@@ -183,6 +188,13 @@ def matrix_protos():
     mk(alpha_tag('Mo', j), [Field('ref', 'Book', packet='Book', named=True), num('Post', 'u16')],
        subs=[('Book', [Field('ref', 'Best', packet='Level', named=True), Field('ref', 'Worst', packet='Level', named=True)]), ('Level', [num('Px', 'i64'), dyn('Venue')])],
        options={'LittleEndian': 'true'})
+    # declared packets that nothing refers to (each still needs its type in every target); four inline objects in one packet
+    j += 1
+    mk(alpha_tag('Mo', j), [num('Pre', 'u8'), Field('ref', 'Used', packet='Used', named=False)],
+       subs=[('Orphan', [num('Xa', 'u16'), dyn('Ya')]), ('Used', [num('Xb', 'u8')]), ('OrphanTwo', [Field('ref', 'Inner', packet='Orphan', named=True), fix('Zc', 3)])])
+    j += 1
+    mk(alpha_tag('Mo', j), [Field('inline', 'Alpha', fields=[num('Xa', 'u8')]), Field('inline', 'Bravo', fields=[dyn('Xb')], repeat=True), Field('inline', 'Cargo', fields=[fix('Xc', 2)]),
+                            Field('inline', 'Delta', fields=[num('Xd', 'i32', repeat=True), Field('inline', 'Echo', fields=[num('Xe', 'u8')]), Field('inline', 'Fox', fields=[num('Xf', 'u8')])]), num('Post', 'u16')])
     # inline objects of one NAME with different members in different packets
     j += 1
     mk(alpha_tag('Mo', j), [Field('inline', 'Leg', fields=[num('Ratio', 'u16')]), Field('ref', 'Hedge', packet='Hedge', named=True), num('Post', 'u16')],
@@ -241,6 +253,9 @@ def matrix_protos():
        subs=[('Beat', []), ('Logon', [dyn('User'), num('Ival', 'u16')]), ('Logout', [num('Code', 'u8')])], options={'LittleEndian': 'true'})
     j += 1
     mk(alpha_tag('Mm', j), [num('Kind', 'u16'), Field('match', 'Body', key='Kind', pairs=[([7], 'Ping')]), num('Post', 'u16')], subs=[('Ping', [num('Seq', 'u32')])])
+    j += 1
+    mk(alpha_tag('Mm', j), [dyn('Kind'), Field('match', 'Body', key='Kind', pairs=[(['A,B', 'C D'], 'Logon'), (['E:F'], 'Logout'), (['', '[x]', '{y}'], 'Beat')]), num('Post', 'u16')],
+       subs=[('Logon', [dyn('User')]), ('Logout', [num('Code', 'u8')]), ('Beat', [])])
     # two match fields keyed by the SAME field
     j += 1
     mk(alpha_tag('Mm', j), [num('Kind', 'u8'),
@@ -275,6 +290,11 @@ def matrix_protos():
             mk(alpha_tag('Ml', j), [num('MsgType', 'u16'), Field('len', 'BodyLen', ntype='u32' if le else 'u16', target='Body', prefixed=prefixed, typed=True)] + ([num('Seq', 'u32')] if prefixed else []) +
                [Field('inline', 'Body', fields=[dyn('User'), num('Ival', 'u16'), Field('num', 'Nums', ntype='u32', repeat=True)]), num('Post', 'u16')],
                options={'LittleEndian': le} if le else None)
+    # the length field is the very first field of the message (placeholder position 0)
+    for le in (None, 'true'):
+        j += 1
+        mk(alpha_tag('Ml', j), [Field('len', 'BodyLen', ntype='u16', target='Body', prefixed=(le is not None), typed=True), Field('ref', 'Body', packet='Logon', named=True), num('Post', 'u16')],
+           subs=[('Logon', [dyn('User'), num('Ival', 'u16')])], options={'LittleEndian': le} if le else None)
     # checksum
     j = 0
     for ct in INT_TYPES:
@@ -302,6 +322,14 @@ def matrix_protos():
         j += 1
         mk(alpha_tag('Mc', j), [num('MsgType', 'u16'), Field('cksum', 'HdrSum', ntype='u8', algo=a1, prefixed=False, typed=True), dyn('Text'),
                                 Field('cksum', 'Trailer', ntype='u32', algo=a2, prefixed=(le is not None), typed=True)], options={'LittleEndian': le} if le else None)
+    # a checksum field INSIDE the payload the length field measures (match payload and plain member)
+    j += 1
+    mk(alpha_tag('Mc', j), [num('MsgType', 'u16'), Field('len', 'BodyLen', ntype='u32', target='Body', prefixed=False, typed=True),
+                            Field('match', 'Body', key='MsgType', pairs=[([1], 'Order'), ([2], 'Beat')]), num('Post', 'u16')],
+       subs=[('Order', [dyn('Sym'), Field('cksum', 'Check', ntype='u16', algo='CRC16', prefixed=False, typed=True), num('Qty', 'u32')]), ('Beat', [])])
+    j += 1
+    mk(alpha_tag('Mc', j), [num('Pre', 'u8'), Field('len', 'BodyLen', ntype='u16', target='Body', prefixed=True, typed=True), Field('ref', 'Body', packet='Order', named=True)],
+       subs=[('Order', [dyn('Sym'), Field('cksum', 'Check', ntype='u32', algo='Mix32', prefixed=True, typed=True)])], options={'LittleEndian': 'true'})
     # MetaData
     j = 0
     md = [('Common', [MetaEntry('Seq', base=num('Seq', 'u32')), MetaEntry('Code', base=fix('Code', 4)), MetaEntry('Zed', base=fix('Zed', 6, zchar=True)),
@@ -326,6 +354,10 @@ def matrix_protos():
     j += 1
     mk(alpha_tag('Md', j), [Field('meta', 'LastPx', entry='LastPx', named=False), Field('meta', 'Qty', entry='Qty', named=False),
                             Field('meta', 'AvgPx', entry='AvgPx', named=False, repeat=True), Field('meta', 'Code', entry='Code', named=False)], metadata=md2)
+    # fields with an EXPLICIT type whose name equals a MetaData entry of another type (the written type counts)
+    j += 1
+    mk(alpha_tag('Md', j), [num('Price', 'u32'), fix('Code', 12), Field('meta', 'Seq', entry='Seq', named=False), num('Zed', 'u8', repeat=True),
+                            Field('inline', 'Inner', fields=[num('Seq', 'u64'), dyn('Price')])], metadata=md)
     # explicit default padding attributes under non-default padding options (the attribute must win in every language)
     j = 0
     for cfg in ({'FixedStringPadChar': "'0'"}, {'FixedStringPadFromLeft': 'true'}, {'FixedStringPadChar': "'\\x00'", 'FixedStringPadFromLeft': 'true'}, {'FixedStringPadChar': "'0'", 'LittleEndian': 'true'}):
